@@ -311,7 +311,8 @@ func sortExtractor(args []string) []int {
 				return nil
 			}
 			// The STORE destination is also a key accessed by the command.
-			keys = append(keys, i+1)
+			// When STORE is given several times Redis uses the last one.
+			keys = append(keys[:1], i+1)
 			hasStore = true
 			i++
 		case strings.EqualFold(args[i], "by"):
@@ -351,11 +352,14 @@ func geoRadiusStoreExtractor(args []string) []int {
 	}
 	keys := []int{0}
 	hasStore := false
-	for i := 1; i < len(args)-1; i++ {
+	// Options start after "key longitude latitude radius unit" / "key member radius unit";
+	// Redis (georadiusGetKeys) looks at the arguments from the fifth one on, and when both
+	// STORE and STOREDIST (or one of them twice) are given the last one is the destination.
+	for i := 4; i < len(args)-1; i++ {
 		if strings.EqualFold(args[i], "store") || strings.EqualFold(args[i], "storedist") {
-			keys = append(keys, i+1)
+			keys = append(keys[:1], i+1)
 			hasStore = true
-			break
+			i++
 		}
 	}
 	if !hasStore {
